@@ -553,8 +553,18 @@ def pick(conds, items, default):
     return r
 
 
-def te_class(vc, v):
-    """(final coding is chunked, other known coding list) for a Transfer-Encoding value, by the spec patterns"""
+def te_class(vc, v, abstract=False):
+    """(final coding is chunked, other known coding list) for a Transfer-Encoding value, by the spec patterns.
+    abstract=True (proof mode only): the two pattern sets are named by uninterpreted predicates TEc / TEp (disjoint) —
+    used where only the *classification* matters and the patterns themselves are the business of parse_transfer_encoding's
+    own contract."""
+    if abstract and vc.mode == "sym":
+        import z3
+        from pyvc import lib
+        t = lift(v).t
+        c = SBool(lib.uf("TEc", z3.StringSort(), z3.BoolSort())(t))
+        p = SBool(lib.uf("TEp", z3.StringSort(), z3.BoolSort())(t))
+        return And(c, Not(p)), And(p, Not(c))
     c = Or(*[in_re(vc, v, te_spec_pattern(L, isinstance(v, (str, SStr)))) for L in TE_CHUNKED])
     p = Or(*[in_re(vc, v, te_spec_pattern(L, isinstance(v, (str, SStr)))) for L in TE_PLAIN])
     return c, p
@@ -586,15 +596,13 @@ def summarise_value_parsers(vc):
     def te(v_, value):
         if vc.mode == "native":
             return real_te(value)
-        c, p = te_class(vc, value)
+        c, p = te_class(vc, value, abstract=True)
         counter[0] += 1
         if vc.branch(c):
             k = vc.ex.choose(len(TE_CHUNKED), f"te_result{counter[0]}")
-            vc.assume(in_re(vc, value, te_spec_pattern(TE_CHUNKED[k], isinstance(value, SStr))))
             return lift(TE_CHUNKED[k])
         if vc.branch(p):
             k = vc.ex.choose(len(TE_PLAIN), f"te_result{counter[0]}")
-            vc.assume(in_re(vc, value, te_spec_pattern(TE_PLAIN[k], isinstance(value, SStr))))
             return lift(TE_PLAIN[k])
         vc.raise_(ValueError, "unknown transfer-encoding header")
 
@@ -614,10 +622,21 @@ def lower_(vc, b):
     return SBytes(lib.uf("lower", z3.StringSort(), z3.StringSort())(lift(b).t))
 
 
-NAME_OPTS = dict(exact_regex=True)
+def name_check(vc, name):
+    """the code's own field-name test `_valid_header_name.match(name)`: natively the real pattern object, in proof mode the
+    uninterpreted predicate the engine uses for a compiled pattern (exact_regex off) — what that pattern accepts is the
+    subject of the separate scenario validate_headers.name_pattern"""
+    from mitmproxy.net.http import validate as VM
+    p = VM._valid_header_name
+    if vc.mode == "native":
+        return p.match(name) is not None
+    import z3
+    from pyvc import lib
+    key = z3.StringVal(f"{p.pattern!r}/{int(p.flags)}")
+    return SBool(lib.uf("re_match", z3.StringSort(), z3.StringSort(), z3.BoolSort())(key, lift(name).t))
 
 
-@scenario("validate_headers", functions=[V + "validate_headers"], **NAME_OPTS)
+@scenario("validate_headers", functions=[V + "validate_headers"])
 def s_validate(vc):
     kind = vc.case("kind", ["request", "response"])
     n = vc.case("n", list(range(NMAX + 1)))
@@ -634,13 +653,13 @@ def s_validate(vc):
     n_te, n_cl = count(is_te), count(is_cl)
     te_val = pick(is_te, vals, b"") if n else b""
     cl_val = pick(is_cl, vals, b"") if n else b""
-    te_chunked, te_plain = te_class(vc, te_val) if n else (False, False)
+    te_chunked, te_plain = te_class(vc, te_val, abstract=True) if n else (False, False)
     http11 = version == b"HTTP/1.1"
-    nl = Or(*[endswith(x, b"\n") for x in names + vals]) if n else False   # KF-C01-5: `$` accepts a trailing newline
+    nl = Or(*[endswith(x, b"\n") for x in vals]) if n else False   # KF-C01-5: `$` accepts a trailing newline
     no_body_status = Or(And(status >= 100, status <= 199), status == 204) if kind == "response" else False
     if out.ok:
         for i in range(n):
-            vc.ensure_kf(f"ok.name_is_token[{i}]", in_re(vc, names[i], TOKEN_B), "KF-C01-5", nl)
+            vc.ensure(f"ok.every_name_checked[{i}]", name_check(vc, names[i]))
         vc.ensure("ok.at_most_one_te", n_te <= 1)
         vc.ensure("ok.at_most_one_cl", n_cl <= 1)
         vc.ensure("ok.not_both", Not(And(n_te >= 1, n_cl >= 1)))
@@ -654,8 +673,123 @@ def s_validate(vc):
     else:
         # completeness (mitmproxy is allowed to be stricter than the RFC, this pins down *how* strict): a message is refused
         # only for one of the reasons of the statement
-        names_ok = And(*[in_re(vc, nm, TOKEN_B) for nm in names]) if n else True
+        names_ok = And(*[name_check(vc, nm) for nm in names]) if n else True
         cl_ok = Implies(n_cl >= 1, in_re(vc, cl_val, CL_STRICT_B))
         te_ok = Implies(n_te >= 1, And(http11, te_chunked if kind == "request" else And(Or(te_chunked, te_plain), Not(no_body_status))))
         good = And(names_ok, n_te <= 1, n_cl <= 1, Not(And(n_te >= 1, n_cl >= 1)), cl_ok, te_ok)
         vc.ensure("refused_only_for_a_stated_reason", Not(good))
+
+
+@scenario("validate_headers.name_pattern", functions=[V + "validate_headers"], exact_regex=True)
+def s_validate_name(vc):
+    """what the field-name test accepts: exactly the RFC 9110 tokens (known defect: plus token + newline)"""
+    kind = vc.case("kind", ["request", "response"])
+    name = vc.sym_bytes("name")
+    msg = mk_message(vc, kind, [name], [b"x"], b"HTTP/1.1", 200 if kind == "response" else None)
+    vc.assume(And(lower_(vc, name) != b"transfer-encoding", lower_(vc, name) != b"content-length"))
+    out = vc.call(V + "validate_headers", msg)
+    tok = in_re(vc, name, TOKEN_B)
+    vc.ensure("token_accepted", Implies(tok, out.ok))
+    vc.ensure_kf("accepted_only_if_token", Implies(out.ok, tok), "KF-C01-5", endswith(name, b"\n"))
+    vc.ensure("raises_only_value_error", out.ok or issubclass(out.raised_type(), ValueError))
+
+
+# ---------------------------------------------------------------------------------------------------------------------
+# expected_http_body_size: for heads that pass validation, the framing decision is exactly RFC 9112 §6.3
+
+def is_ascii(vc, b):
+    if vc.mode == "native":
+        return all(c < 128 for c in b)
+    import z3
+    return SBool(z3.InRe(lift(b).t, z3.Star(z3.Range(chr(0), chr(127)))))
+
+
+def spec_valid_fields(vc, is_request, names, vals, http11, status):
+    """the postcondition of validate_headers (scenario validate_headers), as a predicate on the field list"""
+    n = len(names)
+    is_te = [lower_(vc, nm) == b"transfer-encoding" for nm in names]
+    is_cl = [lower_(vc, nm) == b"content-length" for nm in names]
+    n_te, n_cl = count(is_te), count(is_cl)
+    te_val = pick(is_te, vals, b"") if n else b""
+    cl_val = pick(is_cl, vals, b"") if n else b""
+    te_c, te_p = te_class(vc, te_val, abstract=True) if n else (False, False)
+    no_body_status = False if is_request else Or(And(status >= 100, status <= 199), status == 204)
+    valid = And(n_te <= 1, n_cl <= 1, Not(And(n_te >= 1, n_cl >= 1)),
+                Implies(n_cl >= 1, in_re(vc, cl_val, CL_RFC_B)),
+                Implies(n_te >= 1, And(http11, te_c if is_request else And(Or(te_c, te_p), Not(no_body_status)))))
+    return valid, n_te, n_cl, te_val, cl_val, te_c, te_p
+
+
+def method_str(vc, m):
+    """Request.method: the method bytes presented as text (UTF-8/surrogateescape; identity on ASCII)"""
+    if vc.mode == "native":
+        return m.decode("utf-8", "surrogateescape")
+    import z3
+    from pyvc import lib
+    return SStr(lib.uf("decode_utf-8_surrogateescape", z3.StringSort(), z3.StringSort())(lift(m).t))
+
+
+def upper_(vc, s):
+    if vc.mode == "native":
+        return s.upper()
+    import z3
+    from pyvc import lib
+    return SStr(lib.uf("upper", z3.StringSort(), z3.StringSort())(lift(s).t))
+
+
+EBS = RD + "expected_http_body_size"
+
+
+@scenario("expected_http_body_size", functions=[EBS])
+def s_ebs(vc):
+    kind = vc.case("kind", ["request", "response"])
+    n = vc.case("n", [0, 1, 2])
+    names = [vc.sym_bytes(f"n{i}") for i in range(n)]
+    vals = [vc.sym_bytes(f"v{i}") for i in range(n)]
+    http11 = vc.sym_bool("http11")
+    version = If(http11, b"HTTP/1.1", b"HTTP/1.0") if vc.mode == "sym" else (b"HTTP/1.1" if http11 else b"HTTP/1.0")
+    method = vc.sym_bytes("method")
+    status = vc.sym_int("status", lo=100, hi=999) if kind == "response" else None
+    is_request = kind == "request"
+    valid, n_te, n_cl, te_val, cl_val, te_c, te_p = spec_valid_fields(vc, is_request, names, vals, http11, status)
+    for v in vals:
+        c, p = te_class(vc, v, abstract=True)
+        vc.assume(Implies(Or(c, p), And(is_ascii(vc, v), len_(v) > 0)))   # the named pattern sets contain non-empty ASCII strings only
+    summarise_value_parsers(vc)
+    from props.httpstream import mk_request
+    if is_request:
+        req = mk_message(vc, "request", names, vals, version, method=method)
+        resp = None
+    else:
+        req = mk_request(vc, method=method)
+        resp = mk_message(vc, "response", names, vals, version, status)
+    out = vc.call(EBS, req, resp)
+    vc.ensure("raises_only_value_error", out.ok or issubclass(out.raised_type(), ValueError))
+    if not vc.branch(valid):
+        return
+    vc.ensure("valid_head.no_exception", out.ok)
+    if not out.ok:
+        return
+    r = out.result
+    # RFC 9112 §6.3
+    m = method_str(vc, method)
+    lenient_method = And(Or(upper_(vc, m) == "HEAD", upper_(vc, m) == "CONNECT"), m != "HEAD", m != "CONNECT")   # KF-C01-6
+    if not is_request:
+        rule1 = Or(m == "HEAD", And(status >= 100, status <= 199), status == 204, status == 304)
+        rule2 = And(status >= 200, status <= 299, m == "CONNECT")
+        if vc.branch(Or(rule1, rule2)):
+            vc.ensure("rule1_2.no_body", And(not isnone(r), r == 0) if not isnone(r) else False)
+            return
+    if vc.branch(n_te >= 1):
+        if vc.branch(te_c):
+            vc.ensure_kf("rule3.chunked", isnone(r), "KF-C01-6", lenient_method)
+        else:
+            vc.ensure_kf("rule3.response_until_close", And(not isnone(r), r == -1) if not isnone(r) else False, "KF-C01-6", lenient_method)
+        return
+    if vc.branch(n_cl >= 1):
+        vc.ensure_kf("rule5.content_length", And(not isnone(r), r == str_to_int(vc, cl_val)) if not isnone(r) else False, "KF-C01-6", lenient_method)
+        return
+    if is_request:
+        vc.ensure("rule6.request_without_body", And(not isnone(r), r == 0) if not isnone(r) else False)
+    else:
+        vc.ensure_kf("rule8.response_until_close", And(not isnone(r), r == -1) if not isnone(r) else False, "KF-C01-6", lenient_method)
